@@ -55,7 +55,7 @@ pub struct Flow<B, State> {
 #[derive(Debug)]
 pub(crate) struct Inner<B> {
     pub call: CallHolder<B>,
-    pub close_reason: ArrayVec<CloseReason, 4>,
+    pub close_reason: ArrayVec<CloseReason, 5>,
     pub should_send_body: bool,
     pub await_100_continue: bool,
     pub status: Option<StatusCode>,
